@@ -401,7 +401,14 @@ func isSelfReference(callee, from *ssa.Function) bool {
 	if callee == from || callee == root {
 		return true
 	}
-	return callee.Object() != nil && callee.Object() == root.Object()
+	if callee.Object() != nil && callee.Object() == root.Object() {
+		return true
+	}
+	// A method of a generic type called on another instantiation of its receiver (L[int].Walk
+	// from (*L[T]).Walk) has its own types.Func; only Origin() links it to the declaration.
+	cf, _ := callee.Object().(*types.Func)
+	rf, _ := root.Object().(*types.Func)
+	return cf != nil && rf != nil && cf.Origin() == rf.Origin()
 }
 
 func extractClosureSignature(v *ssa.MakeClosure) string {
